@@ -231,7 +231,14 @@ def _run(sim, fe, case, r):
                     res = await sim.app.unregister(pfx)
             else:
                 if c['op'] == 'register':
-                    res = await sim.app.register(pfx, (lambda n, p, a: None) if c.get('with_func') else None)
+                    rv = c.get('route_validator')
+                    if rv is None:
+                        res = await sim.app.register(pfx, (lambda n, p, a: None) if c.get('with_func') else None)
+                    else:
+                        # the validator for Interests arriving on the new route; it has no say about the forwarder's reply
+                        async def route_validator(_n, _s, rv=rv):
+                            return rv == 'accept'
+                        res = await sim.app.register(pfx, (lambda n, p, a: None) if c.get('with_func') else None, route_validator)
                 else:
                     res = await sim.app.unregister(pfx)
             results[i] = ('ret', res)
@@ -296,7 +303,8 @@ def _call(fe):
     return st.fixed_dictionaries({'op': st.sampled_from(['register', 'register', 'unregister']),
                                   'prefix': S.name(0, 4, 12, allow_digest_types=False),
                                   'reply': st.sampled_from(REPLIES), 'latency': st.sampled_from([0, 1, 3, 999, 1001]),
-                                  'with_func': st.booleans()})
+                                  'with_func': st.booleans(),
+                                  'route_validator': st.sampled_from([None, None, 'reject', 'accept'])})
 
 
 def _case(fe):
@@ -312,6 +320,10 @@ def _grid(tier):
                 for lat in (0, 999, 1001):
                     yield {'frontend': fe, 'calls': [{'op': op, 'prefix': [[8, '61'], [8, '62']], 'reply': reply, 'latency': lat,
                                                       'with_func': True}]}
+                    if fe == 'legacy' and op == 'register' and lat == 0:
+                        for rv in ('reject', 'accept'):
+                            yield {'frontend': fe, 'calls': [{'op': op, 'prefix': [[8, '61'], [8, '62']], 'reply': reply, 'latency': lat,
+                                                              'with_func': True, 'route_validator': rv}]}
         # concurrency at the same clock reading
         for local in (False, True, False):
             yield {'frontend': fe, 'local': local, 'calls': [{'op': 'register', 'prefix': [[8, '6c']], 'reply': 'ok-body', 'latency': 0,
@@ -345,14 +357,24 @@ def run_routes(case):
                 loop.call_later(case['latency'] / 1000, lambda: loop.create_task(sim.app.face.callback(6, reply)))
         face.send = send
         routes = [S.name_comps(p) for p in case['routes']]
-        for p in routes:
+        # some routes are declared while the first connection is still being opened (open() takes 20 ms): not connected yet either
+        n_late = min(case.get('late', 0), len(routes) - 1) if case.get('open_delay') else 0
+        face.open_delay = case.get('open_delay', 0) / 1000
+
+        def declare(p):
             if fe == 'v2':
                 sim.app.route(p)(lambda n, a, rp, c: None)
             else:
                 sim.app.route(p)(lambda n, pa, a: None)
+        for p in routes[:len(routes) - n_late]:
+            declare(p)
         for conn in range(2):
             seen.clear()
             sim.start()
+            if conn == 0 and n_late:
+                sim.vl.advance(face.open_delay / 4)
+                for p in routes[len(routes) - n_late:]:
+                    sim.vl.call(declare, p)
             sim.vl.advance(1.0 + 0.2 * len(routes))
             if sorted(seen) != sorted(map(tuple, routes)):
                 r.bad(f'C17/{fe}/routes/connection-{conn}', f'register commands {seen} for routes {routes}')
@@ -367,7 +389,8 @@ def run_routes(case):
             r.bad(f'C17/{fe}/routes/unhandled-loop-error/{errs[0]["type"]}', str(errs[:2])[:300])
     finally:
         sim.close()
-    r.key = (fe, len(case['routes']), case['latency'])
+    r.key = (fe, len(case['routes']), case['latency'], case.get('open_delay', 0), n_late)
+    r.classes = (fe, f'routes:{len(routes)}', f'declared-while-opening:{n_late}')
     return r
 
 
@@ -375,7 +398,8 @@ def _routes_case():
     return st.fixed_dictionaries({'frontend': st.sampled_from(['v2', 'legacy']),
                                   'routes': st.lists(S.name(1, 3, 8, allow_digest_types=False), min_size=1, max_size=4,
                                                      unique_by=str),
-                                  'latency': st.sampled_from([0, 1, 5])})
+                                  'latency': st.sampled_from([0, 1, 5]), 'open_delay': st.sampled_from([0, 20]),
+                                  'late': st.integers(0, 2)})
 
 
 # ---- parse_response round trip -----------------------------------------------------------------------------------------------
